@@ -285,3 +285,40 @@ Section Consume.
     | _ => None
     end.
 End Consume.
+
+(* ---- round 2 additions ----------------------------------------------------------------- *)
+(* IDFromPublicKey with the process-wide switch AdvancedEnableInlining *)
+Definition id_of_key_flag (inlining : bool) (max_inline : N) (marshalled digest : bytes) : bytes :=
+  if inlining then id_of_key max_inline marshalled digest else mh_wrap MH_SHA2_256 digest.
+
+(* circuitv2/pb ReservationVoucher { optional bytes relay = 1; optional bytes peer = 2;
+   optional uint64 expiration = 3 } as read by ReservationVoucher.UnmarshalRecord: both
+   IDs go through peer.IDFromBytes (a valid multihash; an absent field is the empty
+   string, which is not), the expiration defaults to 0 and is a uint64 *)
+Definition voucher_fields (payload : bytes) : option (bytes * bytes * N) :=
+  match pb_fields payload with
+  | Some fs =>
+      let relay := opt_bytes (last_bytes 1 fs None) in
+      let peer := opt_bytes (last_bytes 2 fs None) in
+      let exp := match last_varint 3 fs None with Some v => v mod 2 ^ 64 | None => 0 end in
+      match mh_decode relay, mh_decode peer with
+      | Some _, Some _ => Some (relay, peer, exp)
+      | _, _ => None
+      end
+  | None => None
+  end.
+
+(* the hand-written canonical voucher payload *)
+Definition marshal_voucher (relay peer : bytes) (exp : N) : bytes :=
+  put_len_field 1 relay ++ put_len_field 2 peer ++ put_varint_field 3 exp.
+
+(* peer.IDFromP2PAddr over the component list (protocol code, raw value) of a
+   multiaddr: the LAST component must be /p2p and its value is the ID; SplitAddr /
+   AddrInfoFromP2pAddr answer the same question with ma.SplitLast *)
+Definition P_P2P : N := 421.
+Definition P_CIRCUIT : N := 290.
+Definition id_from_p2p_addr (comps : list (N * bytes)) : option bytes :=
+  match rev comps with
+  | (code, v) :: _ => if code =? P_P2P then Some v else None
+  | [] => None
+  end.
